@@ -9,6 +9,7 @@ import (
 	"fmt"
 	"math"
 	"strconv"
+	"sync/atomic"
 )
 
 // Script holds the values of one replay: name -> literal (ints decimal, floats as
@@ -199,3 +200,41 @@ func SameBits(a, b float64) bool {
 // Native reports whether the harness is running in the real build (replay) rather than in the
 // engine; used only to add diagnostics to replays.
 func Native() bool { return true }
+
+// Freeze declares the objects shared between executions (engine: while frozen, any store into
+// a cell reachable from them or from zog's package-level variables is a violation).
+func Freeze(roots ...any) {}
+func Unfreeze()            {}
+
+// ConcurrencyReps is how often each goroutine repeats its body in a native run.
+var ConcurrencyReps = 200
+
+// Concurrently runs f(0..n-1) at the same time (natively: n goroutines, repeated, meant to be
+// run under the race detector); the engine runs the bodies sequentially under its monitors.
+func Concurrently(n int, f func(i int)) {
+	done := make(chan any, n)
+	for k := 0; k < n; k++ {
+		go func(k int) {
+			defer func() { done <- recover() }()
+			for r := 0; r < ConcurrencyReps; r++ {
+				f(k)
+			}
+		}(k)
+	}
+	var first any
+	for k := 0; k < n; k++ {
+		if r := <-done; r != nil && first == nil {
+			first = r
+		}
+	}
+	if first != nil {
+		panic(first)
+	}
+}
+
+// Flag / Flagged: a goroutine-safe counter for harness bodies run by Concurrently.
+var flagged atomic.Int32
+
+func Flag()        { flagged.Add(1) }
+func Flagged() int { return int(flagged.Load()) }
+func FlagReset()   { flagged.Store(0) }
